@@ -44,6 +44,42 @@ func opctlIotaNames(repo, file, first, stop string) ([]string, error) {
 }
 
 func init() {
+	// assigners: the functions of a file that assign to the expression args.target (e.g. "trk.current"),
+	// in source order: {"kind":"assigners","file":..,"args":{"target":"trk.current"},"lean":"statusAssigners"}
+	Register("assigners", func(repo string, f Fact) (string, error) {
+		fset := token.NewFileSet()
+		file, err := parser.ParseFile(fset, filepath.Join(repo, f.File), nil, 0)
+		if err != nil {
+			return "", err
+		}
+		var names []string
+		for _, d := range file.Decls {
+			fd, ok := d.(*ast.FuncDecl)
+			if !ok || fd.Body == nil {
+				continue
+			}
+			found := false
+			ast.Inspect(fd.Body, func(n ast.Node) bool {
+				switch st := n.(type) {
+				case *ast.AssignStmt:
+					for _, l := range st.Lhs {
+						if exprString(fset, l) == f.Args["target"] {
+							found = true
+						}
+					}
+				case *ast.IncDecStmt:
+					if exprString(fset, st.X) == f.Args["target"] {
+						found = true
+					}
+				}
+				return true
+			})
+			if found {
+				names = append(names, fmt.Sprintf("%q", fd.Name.Name))
+			}
+		}
+		return fmt.Sprintf("def %s : List String := [%s]", f.Lean, strings.Join(names, ", ")), nil
+	})
 	// iota_names: {"kind":"iota_names","file":..,"args":{"first":"CREATED","stop":"statusCount"},"lean":"statusNames"}
 	Register("iota_names", func(repo string, f Fact) (string, error) {
 		names, err := opctlIotaNames(repo, f.File, f.Args["first"], f.Args["stop"])
